@@ -40,6 +40,11 @@ func (cdb *CachedDatabase) SearchWithOptionsAndCache(query string, options Searc
 		UseFuzzy:       options.UseFuzzy,
 		FuzzyThreshold: options.FuzzyThreshold,
 		UseNLP:         options.UseNLP,
+
+		TopTermsCap:     options.TopTermsCap,
+		AllPlatforms:    options.AllPlatforms,
+		Platforms:       options.Platforms,
+		NoCrossPlatform: options.NoCrossPlatform,
 	}
 
 	// Try to get from cache first
